@@ -80,7 +80,7 @@ fn role_from(s: &str) -> Role {
     }
 }
 
-fn to_rule(r: &RuleSpec) -> FaultRule {
+pub fn to_rule(r: &RuleSpec) -> FaultRule {
     let action = match r.action {
         ActionSpec::Errno(e) => FaultAction::Errno(e),
         ActionSpec::Short(n) => FaultAction::Short(n),
@@ -91,7 +91,7 @@ fn to_rule(r: &RuleSpec) -> FaultRule {
 
 const ERRNOS: [i32; 5] = [libc::ENOSPC, libc::EIO, libc::EDQUOT, libc::EINTR, libc::EACCES];
 
-fn gen_faults(rng: &mut Rng) -> Vec<RuleSpec> {
+pub fn gen_faults(rng: &mut Rng) -> Vec<RuleSpec> {
     let mut out = Vec::new();
     let n = match rng.below(10) {
         0..=5 => 1,
